@@ -40,6 +40,10 @@ type c08cCase struct {
 	Flag string    `json:"flag"`
 	Args []c08cArg `json:"args"`
 	Want []string  `json:"want"` // patterns in order of presentation
+	// Form: how the values are put on the command line. 0: alternating
+	// `--flag v` / `--flag=v`; 1: `--flag v` throughout (a value that starts with
+	// '-' is still written `--flag=v`); 2: `--flag=v` throughout.
+	Form int `json:"form,omitempty"`
 }
 
 const c08cStyles = 6
@@ -247,7 +251,7 @@ type c08cResult struct {
 // c08cCollect parses a real argv with the real flag set and converts the
 // collected values with the real argsToPatterns, exactly as run() does before
 // calling connectconformance.Run.
-func c08cCollect(flagName string, values []string) (res c08cResult) {
+func c08cCollect(flagName string, values []string, form int) (res c08cResult) {
 	defer func() {
 		if x := recover(); x != nil {
 			res.panicked = fmt.Sprint(x)
@@ -258,7 +262,17 @@ func c08cCollect(flagName string, values []string) (res c08cResult) {
 	bind(cmd, fl)
 	argv := []string{"--" + modeFlagName, "client"}
 	for i, v := range values {
-		if i%2 == 0 {
+		separate := i%2 == 0
+		switch form {
+		case 1:
+			separate = true
+		case 2:
+			separate = false
+		}
+		if strings.HasPrefix(v, "-") {
+			separate = false // a value that looks like an option is attached to its flag
+		}
+		if separate {
 			argv = append(argv, "--"+flagName, v)
 		} else {
 			argv = append(argv, "--"+flagName+"="+v)
@@ -313,7 +327,7 @@ func c08cJudge(t *testing.T, r *rep.Report, files *c08cFiles, cs c08cCase, verbo
 			values[i] = a.Direct
 		}
 	}
-	res := c08cCollect(cs.Flag, values)
+	res := c08cCollect(cs.Flag, values, cs.Form)
 	r.Eval(1)
 	if verbose {
 		fmt.Printf("replay: --%s values %q\n  file contents: %q\n  collected %q err=%q panicked=%q\n  given patterns %q\n",
@@ -346,7 +360,7 @@ func c08cJudge(t *testing.T, r *rep.Report, files *c08cFiles, cs c08cCase, verbo
 	// Which part failed? Present every argument on its own.
 	perArgOK := true
 	for i, a := range cs.Args {
-		alone := c08cCollect(cs.Flag, values[i:i+1])
+		alone := c08cCollect(cs.Flag, values[i:i+1], cs.Form)
 		want := a.Patterns
 		if !a.IsFile {
 			want = []string{a.Direct}
@@ -393,6 +407,52 @@ func c08cDescribe(args []c08cArg) string {
 	return "[" + strings.Join(parts, ", ") + "]"
 }
 
+// c08cVerbatim: flag values that a command-line layer could mangle. A pattern
+// is a slash-separated list of name components, a component is any text
+// (names come from suite files, including user suites), so commas, quotes,
+// blanks, backslashes, '=', a leading '-' and the empty string are ordinary
+// pattern text: the value given is the pattern that takes part, verbatim.
+// (Only as direct values: a pattern file trims lines and treats '#'.)
+var c08cVerbatim = []string{ //nolint:gochecknoglobals
+	"a,b", "Pairs/*/a,b", "Retries/**/first fails, second succeeds", ",", "a/,/b",
+	`x "quoted" y`, `"`, `"a/b"`, `s/"*"/c`, "it's/*",
+	" lead", "trail ", "two  blanks/x y",
+	`a\b`, `a\`, `\n/x`,
+	"k=v/**", "=", "a=b=c",
+	"-x/*", "--run", "-", "--known-flaky=a",
+	"", "a//b", "/a", "a/",
+	"[a]", "a;b", "{a,b}", "a|b", "$HOME/*", "%s/%d", "a\tb",
+}
+
+// c08cVerbatimCases: every value alone, every ordered pair of values, and every
+// value before / after / between ordinary arguments (a direct plain pattern and
+// an @file), through each flag and in each command-line form.
+func c08cVerbatimCases(thorough bool, emit func(args []c08cArg, form int)) {
+	file := c08cArg{IsFile: true, Patterns: []string{"Suite A/x y", "s/*/b"}, Style: 2}
+	file.Content = c08cRender(file.Patterns, file.Style)
+	plain := c08cArg{Direct: "**/c#d"}
+	for _, form := range []int{1, 2} {
+		for _, v := range c08cVerbatim {
+			d := c08cArg{Direct: v}
+			emit([]c08cArg{d}, form)
+			emit([]c08cArg{d, d}, form) // the same pattern twice is supplied twice
+			emit([]c08cArg{plain, d}, form)
+			emit([]c08cArg{d, plain}, form)
+			emit([]c08cArg{file, d}, form)
+			emit([]c08cArg{d, file}, form)
+			emit([]c08cArg{plain, d, file}, form)
+		}
+		for i, v := range c08cVerbatim {
+			for j, w := range c08cVerbatim {
+				if i == j || (!thorough && (i+j)%3 != 0) {
+					continue
+				}
+				emit([]c08cArg{{Direct: v}, {Direct: w}}, form)
+			}
+		}
+	}
+}
+
 func TestVerifC08Collect(t *testing.T) {
 	r := rep.New("c08-collect")
 	defer r.Write()
@@ -419,10 +479,41 @@ func TestVerifC08Collect(t *testing.T) {
 		"patterns of a file in every order, file written in each of %d styles (plain, no final newline, comments/blank lines, surrounding blanks, CRLF, indented comments), arguments in every order, "+
 		"optionally one more @file without any pattern (empty / comment only) at every position; each presentation given through each of the 4 flags (--run --skip --known-failing --known-flaky), "+
 		"alternating `--flag v` and `--flag=v`, parsed by the real flag set, converted by the real argsToPatterns. Oracle: the multiset of given patterns. "+
-		"A case is non-trivial when it has >=2 arguments of which >=1 is an @file; cases are distinct by construction.", len(alphabet), alphabet, len(styles))
+		"A case is non-trivial when it has >=2 arguments of which >=1 is an @file; cases are distinct by construction. "+
+		"Verbatim family: %d direct flag values with a comma, double / single quote, leading / trailing / doubled blank, backslash, '=', leading '-', the empty string, empty components, brackets and other shell / format characters, "+
+		"each alone, twice, before / after a plain pattern and an @file, and in ordered pairs (quick: a third of them), through each of the 4 flags, once as `--flag v` and once as `--flag=v` (values with a leading '-' always as `--flag=v`): "+
+		"the flag set must hold exactly the values given and argsToPatterns must hand on exactly those patterns.", len(alphabet), alphabet, len(styles), len(c08cVerbatim))
 	deadline := rep.Deadline()
 	var k int64
 	stop := false
+	// the verbatim family first (small)
+	c08cVerbatimCases(rep.Thorough(), func(args []c08cArg, form int) {
+		for _, flagName := range c08cFlagNames {
+			k++
+			if stop || !r.Mine(k) {
+				continue
+			}
+			if !deadline.IsZero() && k%64 == 0 && time.Now().After(deadline) {
+				r.NotExhaustive("budget reached in c08-collect")
+				stop = true
+				continue
+			}
+			cs := c08cCase{Flag: flagName, Args: args, Form: form}
+			for _, a := range args {
+				if a.IsFile {
+					cs.Want = append(cs.Want, a.Patterns...)
+				} else {
+					cs.Want = append(cs.Want, a.Direct)
+				}
+			}
+			c08cJudge(t, r, files, cs, false)
+			r.NonTrivial("")
+			r.Count("verbatim-family", 1)
+			if k%701 == 5 {
+				r.Sample(cs)
+			}
+		}
+	})
 	for _, set := range c08cSubsets(alphabet, 3) {
 		c08cPresentations(set, styles, func(args []c08cArg) {
 			for _, flagName := range c08cFlagNames {
